@@ -38,6 +38,26 @@ CLAIMED = {
        "(distinct collections never share backing arrays), which the freshness postconditions of the constructors establish.",
   design="DESIGN.md §4.C17"),
 }
+
+CLAIMED.update({
+ "C03": dict(
+  text="Deductive proof of the catalog_ coupling invariant between the key index (Go map) and the association list — every listed association is indexed under its key, every indexed key is listed, keys are pairwise distinct — "
+       "across Make/MakeFromSequence/MakeFromArray, SetValue (in place or append), RemoveValue, RemoveAll, GetValue(s), GetKeys, with map-level postconditions (membership kmem, value-of-key, positions) over the whole view; all histories, key and value types.",
+  note="Trusted: front end, engine, solvers; list operations proved under C01; keys are ==-reflexive (no NaN keys); heap well-formedness (elements of a sequence that exists at entry exist at entry). "
+       "MakeFromMap, RemoveValues and the Sort/Reverse/Shuffle delegations of Catalog are not yet under contract (sorting is C09).",
+  design="DESIGN.md §4.C03"),
+ "C14": dict(
+  text="Deductive proof that map_ (a Go map, modelled as domain/get/cardinality with a ghost enumeration for `range`) satisfies Go-map postconditions for GetValue, SetValue, RemoveValue, RemoveAll, IsEmpty, GetSize, "
+       "GetKeys, GetValues, AsArray and GetIterator (each association exactly once: distinct keys, every key listed, fresh association objects), and that MakeFromMap/MakeFromArray/MakeFromSequence contain exactly the given associations, the last one winning.",
+  note="Trusted: the Go-map model (including `range` enumerating each key of the entry snapshot exactly once), front end, engine, solvers; keys are ==-reflexive. Map.RemoveValues is not under contract.",
+  design="DESIGN.md §4.C14"),
+ "C16": dict(
+  text="Deductive proof of the documented laws and purity of Concatenate (a followed by b), Merge (a's keys in a's order, then b's new keys in b's order, b's value winning) and Extract (exactly the requested keys the catalog contains, in request order): "
+       "results are fresh with fresh association objects, operands' views and values are unchanged (frame + unchanged(view), unchanged(aval)), aliasing of operands allowed.",
+  note="Hypotheses: operand catalogs are well keyed (distinct keys, non-nil associations) — the catalog_ invariant proved under C03. Trusted: front end, engine, solvers, heap well-formedness.",
+  design="DESIGN.md §4.C16"),
+})
+
 NOT_YET = {}
 
 TECH = "contract-based deductive verification: weakest-precondition style VCs generated from go/ssa of /repo, contracts in //go:build verif comment files, discharged by z3 5.1 / z3 4.8 / cvc5"
